@@ -350,6 +350,8 @@ def run(ck):
     ck.rule("C16-ALONE", ".lzma header layout and picky-only heuristics; auto SEQ_FINISH rules")
     evaluate(ck, prog, "C16-ALONE", TABLE)
     check_alone_fields(ck, prog)
+    from . import C06
+    C06.check_resume(ck, prog, RULE="C16-RESUME", only_files={"lzma_decoder.c", "lz_decoder.c", "alone_decoder.c", "lzip_decoder.c", "auto_decoder.c", "microlzma_decoder.c"}, floor=5)
     # re-use and re-entry of the .lzma / .lz / auto decoders
     from . import reinit
     FILES = {"auto_decoder.c", "alone_decoder.c", "lzip_decoder.c", "microlzma_decoder.c"}
